@@ -409,7 +409,7 @@ fn process_tier(w: &Work, tier: &str, seed: u64) -> (u64, Vec<ProcFinding>, Vec<
                 let input = wd.join(&w.sets[si].start);
                 let output = top.join("out.rs");
                 let _ = std::fs::create_dir_all(top.join("tmp"));
-                let plan = PlanSpec { root: top.clone(), input: input.clone(), output: output.clone(), dir: wd.clone(), entropy: (entropy, 0x0d), dirperm, dirorder: vec![], faults: vec![], stderr_full: false, rust_log: [None, Some("debug"), Some("trace")][(entropy % 3) as usize], tmpdir: Some(top.join("tmp")) };
+                let plan = PlanSpec { root: top.clone(), input: input.clone(), output: output.clone(), dir: wd.clone(), entropy: (entropy, 0x0d), dirperm, dirorder: vec![], faults: vec![], stderr_full: false, rust_log: [None, Some("debug"), Some("trace")][(entropy % 3) as usize], tmpdir: Some(top.join("tmp")), clock_base: if entropy == 0 { 0 } else { 1_000_000_000 + entropy % 3_000_000_000 }, pid: if dirperm == 0 { 0 } else { 2 + dirperm % 4_000_000 } };
                 if e % 2 == 1 {
                     // process-level history: another input is converted first by a process sharing cwd and TMPDIR
                     // (anything the tool keeps on disk between runs would show)
@@ -527,7 +527,7 @@ fn main() {
                 }
                 let input = wd.join(&w.sets[si].start);
                 let output = top.join("out.rs");
-                let plan = PlanSpec { root: top.clone(), input: input.clone(), output: output.clone(), dir: wd.clone(), entropy: (entropy, 0x0d), dirperm, dirorder: vec![], faults: vec![], stderr_full: false, rust_log: [None, Some("debug"), Some("trace")][(entropy % 3) as usize], tmpdir: Some(top.join("tmp")) };
+                let plan = PlanSpec { root: top.clone(), input: input.clone(), output: output.clone(), dir: wd.clone(), entropy: (entropy, 0x0d), dirperm, dirorder: vec![], faults: vec![], stderr_full: false, rust_log: [None, Some("debug"), Some("trace")][(entropy % 3) as usize], tmpdir: Some(top.join("tmp")), clock_base: if entropy == 0 { 0 } else { 1_000_000_000 + entropy % 3_000_000_000 }, pid: if dirperm == 0 { 0 } else { 2 + dirperm % 4_000_000 } };
                 let a = vec!["-i".to_string(), input.to_string_lossy().to_string(), "-o".to_string(), output.to_string_lossy().to_string()];
                 let r = cli::run_zeep(&top, &top, &a, &plan, "p");
                 (r.exit_code, std::fs::read(&output).ok())
@@ -658,8 +658,8 @@ fn main() {
             property: PROPERTY.into(),
             engine: ENGINE.into(),
             class: "process-output-differs".into(),
-            key: "process-output-differs:hash-key-or-directory-order".into(),
-            detail: format!("input {}: {} [{} differing (input, environment) pairs]", w.sets[pf.set].name, pf.detail, proc_findings.len()),
+            key: "process-output-differs:environment".into(),
+            detail: format!("input {}: {} (the environments differ in hash key, directory order, clock, pid, RUST_LOG and, for odd ones, an earlier conversion sharing cwd and TMPDIR) [{} differing (input, environment) pairs]", w.sets[pf.set].name, pf.detail, proc_findings.len()),
             scenario: json!({"tier": "process", "input_set": w.sets[pf.set].name, "entropy": pf.entropy, "dirperm": pf.dirperm}),
             tape: json!([["entropy", "u64", pf.entropy], ["dirperm", "u64", pf.dirperm]]),
             observations: json!({"detail": pf.detail}),
